@@ -969,6 +969,43 @@ theorem C17_d19_repaired :
     desiredIs ((readAll D2.toAnswers o1 T2).bind (collect D2.toAnswers o1)) [(str! "d", str! "1"), (str! "b", str! "1")] = true := by
   decide +kernel
 
+/-- **An unsetup line names no product** (the repair of D73, for every line): when what the pattern finds first on a
+line — after the substitutions — is an unsetup command, the reader keeps the line in its setup block and registers neither
+a product to collect nor a line for the final block, whatever the environment answers. -/
+theorem C17_unsetup_names_no_product (A : Answers) (o : Opts) (raw t : Str) (m : RexMatch)
+    (hb : isBlankOrComment raw = false) (hs : subAll A o (stripComment raw) = .ok t)
+    (hm : searchRex t = some m) (hu : m.unsetup = true) :
+    classify A o raw = .ok (.setup t none) := by
+  unfold classify
+  simp [hb, hs, hm, hu, bind, Except.bind, pure, Except.pure]
+
+/-- …and the substitution leaves an unsetup command exactly as it was written (no version, no `>= version`). -/
+theorem C17_unsetup_command_verbatim (A : Answers) (o : Opts) (c : Nat) (cs : Str) (m : RexMatch)
+    (hm : matchRexAt (c :: cs) = some m) (hu : m.unsetup = true) :
+    subGo A o 0 (c :: cs) = (subGo A o (m.len - 1) cs).map (fun rest => (c :: cs).take m.len ++ rest) := by
+  simp only [subGo, hm, hu, if_true, bind, Except.bind, pure, Except.pure]
+  cases subGo A o (m.len - 1) cs <;> rfl
+
+/-- the search with the pattern of the pinned tree, `(setupRequired|setupOptional)\(…\)` without the optional `un` -/
+def searchRexPinned : Str → Option RexMatch
+  | [] => none
+  | c :: cs =>
+    match matchSetupAt (c :: cs) with
+    | some m => some m
+    | none => searchRexPinned cs
+
+/-- **D73** on the pinned pattern: the unanchored pattern finds the setup command `setupRequired(b)` *inside* the line
+`unsetupRequired(b)`, so `b` was registered as a product the table sets up (and demanded to be set up) … -/
+theorem C17_d73_witness_pinned :
+    searchRexPinned (str! "unsetupRequired(b)\n") = some ⟨false, str! "b", 16, false⟩ := by decide +kernel
+
+/-- … whereas the pattern of the repaired tree matches the line as an unsetup command, which the reader keeps in the setup
+block as it is, without a product. -/
+example : searchRex (str! "unsetupRequired(b)\n") = some ⟨false, str! "b", 18, true⟩ := by decide +kernel
+example : (match classify D1.toAnswers o1 (str! "unsetupRequired(b)\n") with
+    | .ok c => c == .setup (str! "unsetupRequired(b)\n") none
+    | .error _ => false) = true := by decide +kernel
+
 /-- **D72** (open finding): the hypothesis `Covered` is not a formality.  Answers as the real code gives them for the table
 `setupRequired(d)`, `setupRequired(c)`, `setupRequired(b)` when `d` takes `f` away again, `c` takes `e` away and `b` sets
 `e` — and with it `f` — up again: `f 1` is set up, but no listing mentions it (`Table.dependencies` removed it by name
